@@ -7,8 +7,11 @@ VARIABLES pc, cfg, in, done, wrong, held
 vars == <<pc, cfg, in, done, wrong, held>>
 Init == pc = "run" /\ cfg \in Cfgs /\ in \in Inputs /\ done = {} /\ wrong = {} /\ held = FALSE
 \* stress: some operation of the mix completes a call (any order, any number of times: a set suffices)
-Call(op) == /\ pc = "run" /\ in.mode = "stress" /\ op \in in.ops /\ op \notin done
+Call(op) == /\ pc = "run" /\ in.mode = "stress" /\ in.ops # Ops /\ op \in in.ops /\ op \notin done
             /\ done' = done \cup {op} /\ UNCHANGED <<pc, cfg, in, wrong, held>>
+\* the round with every operation (stress or cold start): one step, the order within it is immaterial to the model
+CallAll == /\ pc = "run" /\ in.mode \in {"stress", "cold"} /\ in.ops = Ops /\ done = {}
+           /\ done' = Ops /\ UNCHANGED <<pc, cfg, in, wrong, held>>
 \* parked: a runs up to its gate, b runs entirely, a finishes
 Hold    == /\ pc = "run" /\ in.mode = "parked" /\ ~held /\ done = {}
            /\ held' = TRUE /\ UNCHANGED <<pc, cfg, in, done, wrong>>
@@ -16,9 +19,9 @@ RunB    == /\ pc = "run" /\ in.mode = "parked" /\ held /\ in.b \notin done
            /\ done' = done \cup {in.b} /\ UNCHANGED <<pc, cfg, in, wrong, held>>
 Resume  == /\ pc = "run" /\ in.mode = "parked" /\ held /\ in.b \in done
            /\ done' = done \cup {in.a} /\ pc' = "done" /\ UNCHANGED <<cfg, in, wrong, held>>
-Finish  == /\ pc = "run" /\ in.mode = "stress" /\ done = in.ops
+Finish  == /\ pc = "run" /\ in.mode \in {"stress", "cold"} /\ done = in.ops
            /\ pc' = "done" /\ UNCHANGED <<cfg, in, done, wrong, held>>
-Next == (\E op \in Ops : Call(op)) \/ Hold \/ RunB \/ Resume \/ Finish
+Next == (\E op \in Ops : Call(op)) \/ CallAll \/ Hold \/ RunB \/ Resume \/ Finish
 Spec == Init /\ [][Next]_vars /\ WF_vars(Next)
 Done == pc = "done"
 AsObs == [ran |-> done, wrong |-> wrong, reached |-> held, config_same |-> TRUE]
